@@ -19,6 +19,7 @@ RULE = (
     "collecting never raises; errors non-empty <=> strict raised; errors[0] == strict exception. non-trivial = mutant that "
     "strict loading rejects; distinct by (document, path, replacement)."
 )
+RULE += (" " + 'Entry points: X.from_dict, from_dicts (also with collect_filters=True and with resolve_references=False), from_yaml, load_ruleset (one file per document). Two base collections already carry one error per document, so that every deviation probes the order of collected errors.')
 ASSUMPTIONS = ["SigmaError.__eq__ (type, source, args) defines equality of the first collected error and the strict exception",
                "YAML text path is exercised through yaml.safe_dump of the mutated document (plus hand-written duplicate-key texts)"]
 
